@@ -31,14 +31,22 @@ func contractPackages() []string {
 		if info.IsDir() && (info.Name() == ".git" || info.Name() == "node_modules") {
 			return filepath.SkipDir
 		}
-		if info.Name() == "verif_contracts.go" {
+		if strings.HasPrefix(info.Name(), "verif_contracts") && strings.HasSuffix(info.Name(), ".go") {
 			rel, _ := filepath.Rel(repoDir, filepath.Dir(p))
-			out = append(out, rel)
+			if len(out) == 0 || out[len(out)-1] != rel {
+				out = append(out, rel)
+			}
 		}
 		return nil
 	})
 	sort.Strings(out)
-	return out
+	var uniq []string
+	for i, o := range out {
+		if i == 0 || o != out[i-1] {
+			uniq = append(uniq, o)
+		}
+	}
+	return uniq
 }
 
 func hasProp(props []string, p string) bool {
@@ -103,7 +111,7 @@ func main() {
 				}
 				obls = vc.obls
 			}
-			out := filepath.Join(verifDir, "out", "func")
+			out := filepath.Join(verifDir, "out", envOr("VERIF_OUT", "func"))
 			e.Discharge(obls, out, *timeout, runtime.NumCPU()/2, false)
 			for _, o := range obls {
 				if o.Kind == "cover" {
@@ -143,6 +151,53 @@ func main() {
 		for _, c := range e.CS.Order {
 			fmt.Printf("%-10s %s\n", c.Kind, c.Name)
 		}
+	case "sweep":
+		// engine smoke test: generate VCs (no solving) for every function of the given packages with an empty contract
+		e, err := Load(repoDir, verifDir, os.Args[2:])
+		if err != nil {
+			fmt.Fprintln(os.Stderr, err)
+			os.Exit(2)
+		}
+		var keys []string
+		for k := range e.Funcs {
+			keys = append(keys, k)
+		}
+		sort.Strings(keys)
+		counts := map[string]int{}
+		for _, k := range keys {
+			fn := e.Funcs[k]
+			if len(fn.Blocks) == 0 || strings.HasSuffix(k, ".init") || strings.Contains(k, ".init#") {
+				continue
+			}
+			con := e.CS.Contracts[k]
+			if con == nil {
+				con = &Contract{Kind: "func", Name: k, Pkg: pkgKey(fn.Pkg.Pkg), FnParams: map[string]string{"*": "pure"}, Abstract: []string{"defer"}}
+				for i := range fn.Params {
+					con.Params = append(con.Params, fmt.Sprintf("p%d", i))
+				}
+			}
+			func() {
+				defer func() {
+					if r := recover(); r != nil {
+						fmt.Printf("CRASH   %s: %v\n", k, r)
+						counts["crash"]++
+					}
+				}()
+				vc, err := e.GenFunc(k, con)
+				if err != nil {
+					fmt.Printf("ERROR   %s: %v\n", k, err)
+					counts["error"]++
+					return
+				}
+				if vc.failed != "" {
+					fmt.Printf("UNSUPP  %s: %s\n", k, vc.failed)
+					counts["unsupported"]++
+					return
+				}
+				counts["ok"]++
+			}()
+		}
+		fmt.Println(counts)
 	case "check":
 		os.Exit(cmdCheck(os.Args[2:]))
 	case "replay":
